@@ -312,7 +312,7 @@ class VerifyCtx:
         qual = getattr(f, "__qualname__", None)
         if modname in self.index.modules and qual and "<locals>" not in qual:
             try:
-                node = self.index.find_function(modname, qual)
+                node = self.index.find_function(modname, qual, getattr(getattr(f, "__code__", None), "co_firstlineno", None))
             except KeyError:
                 raise OutOfSubset(f"cannot locate source of {modname}.{qual}")
             return FuncVal(node, env=None, self_val=self_val, qualname=qual, module=modname)
@@ -339,6 +339,8 @@ class VerifyCtx:
         if isinstance(obj, tuple):
             return tuple(self.convert_global(st, x, what) for x in obj)
         if isinstance(obj, (list,)):
+            if len(obj) > 64:
+                return Unknown(what + " (large list)")
             return st.alloc(ListObj(items=[self.convert_global(st, x, what) for x in obj], fresh=fresh))
         if isinstance(obj, (set, frozenset)):
             return st.alloc(SetObj(items=[self.convert_global(st, x, what) for x in sorted(obj, key=repr)], fresh=fresh))
